@@ -24,6 +24,22 @@ mpmath.mp.dps = 40
 Fraction = fractions.Fraction
 
 
+def zcheck(solver, timeout_ms):
+    """solver.check() with a watchdog: nlsat does not always honour z3's own timeout, so a timer thread interrupts the
+    context shortly after the deadline (the verdict is then 'unknown')."""
+    import threading
+    solver.set('timeout', int(timeout_ms))
+    timer = threading.Timer(timeout_ms / 1000.0 + 0.5, solver.ctx.interrupt)
+    timer.daemon = True
+    timer.start()
+    try:
+        return str(solver.check())
+    except z3.Z3Exception:
+        return 'unknown'
+    finally:
+        timer.cancel()
+
+
 class PathAbort(BaseException):
     """the current path is infeasible -- drop it silently"""
 
@@ -150,8 +166,8 @@ class Ctx:
             t = time.time()
             s = self.solver()
             c = sb.z3()
-            s.push(); s.add(c); rt = str(s.check()); s.pop()
-            s.push(); s.add(z3.Not(c)); rf = str(s.check()); s.pop()
+            s.push(); s.add(c); rt = zcheck(s, self.bt); s.pop()
+            s.push(); s.add(z3.Not(c)); rf = zcheck(s, self.bt); s.pop()
             self.nsolver += 2
             self.tsolver += time.time() - t
             opts = [b for b, r in ((True, rt), (False, rf)) if r != 'unsat']
